@@ -533,6 +533,11 @@ def plan(tier):
         for det in (0, 1, "probabilistic"):
             jobs.append((CompileLoop(circuit=cname, det=det), {}))
             jobs.append((DmCompileLoop(circuit=cname, det=det), {}))
+    # compile(circuit, initial_state=...) from a SYMBOLIC initial state, noise off (harness shared with C06)
+    from props.c06 import CompileNoise
+    for backend in ("s", "dm"):
+        for gate in ("H", "CNOT"):
+            jobs.append((CompileNoise(backend=backend, gate=gate, pauli="X", after=1, noise="none", switch=0), {}))
     # -- density-matrix leg -------------------------------------------------------------------------------
     dm_sizes = [(1, 0), (0, 1), (1, 1), (2, 0)] if q else [(1, 0), (0, 1), (1, 1), (2, 0), (0, 2), (2, 1), (1, 2)]
     for n_p, n_e in dm_sizes:
